@@ -251,6 +251,11 @@ def run(spec, hang_ok=False):
     log, d = w.log, w.director
     tmpdir = tempfile.mkdtemp(prefix='vf-', dir=scratch_root())
     obs.tmpdir = tmpdir
+    if any(isinstance(t, dict) and t.get('relative') for t in spec.get('transfers', ())):
+        # the caller names files RELATIVE to the working directory ('name', './name'); the harness keeps absolute paths for itself
+        # (a worker process runs one case at a time, so the process-wide working directory is this case's alone)
+        obs.prev_cwd = os.getcwd()
+        os.chdir(tmpdir)
     ccfg = spec.get('client', {})
     client = w.s3.make_client(ccfg.get('checksum', 'when_supported'), ccfg.get('scheme', 'https'))
     obs.client = client
@@ -482,11 +487,11 @@ def submit_one(mgr, x):
     bucket = t.get('bucket', BUCKET)  # e.g. an S3 Object Lambda access-point ARN, which the manager rejects at call time
     try:
         if x.kind == 'upload':
-            x.future = mgr.upload(x.src, bucket, x.key, extra_args=extra or None, subscribers=subs)
+            x.future = mgr.upload(lib_path(x, x.src), bucket, x.key, extra_args=extra or None, subscribers=subs)
         elif x.kind == 'download':
             if t.get('versioned'):
                 extra['VersionId'] = 'v1'
-            x.future = mgr.download(bucket, x.key, x.dest, extra_args=extra or None, subscribers=subs)
+            x.future = mgr.download(bucket, x.key, lib_path(x, x.dest), extra_args=extra or None, subscribers=subs)
         elif x.kind == 'copy':
             src = {'Bucket': SRC_BUCKET, 'Key': 'src-' + x.key}
             if t.get('versioned'):
@@ -978,7 +983,22 @@ def cleanup(obs):
         obs.stop_poll.set()
     if getattr(obs, 'dirwatch', None) is not None:
         obs.dirwatch.close()
+    if getattr(obs, 'prev_cwd', None) is not None:
+        try:
+            os.chdir(obs.prev_cwd)
+        except OSError:
+            os.chdir('/')
+        obs.prev_cwd = None
     shutil.rmtree(obs.tmpdir, ignore_errors=True)
+
+
+def lib_path(x, p):
+    """The path string handed to the library for the harness's absolute path `p`."""
+    rel = x.spec.get('relative')
+    if not rel or not isinstance(p, str):
+        return p
+    r = os.path.relpath(p)
+    return os.path.join(os.curdir, r) if rel == 'dot' else r
 
 
 def describe_outcome(x):
